@@ -4,9 +4,42 @@ import (
 	"encoding/json"
 	"math"
 	"os"
+	"path/filepath"
 	"runtime"
+	"sort"
 	"time"
 )
+
+// vfListTree lists the directory tree below root as it is on disk: slash-separated paths
+// relative to root with a leading "/", directories with a trailing "/" (the root itself
+// is "/"). Inside the engine the same listing is produced by the engine (not by the os
+// model), so it is an independent reference for what a file-system loader should report.
+func vfListTree(root string) []string {
+	var out []string
+	filepath.Walk(root, func(p string, info os.FileInfo, err error) error {
+		if err != nil {
+			return nil
+		}
+		rel, _ := filepath.Rel(root, p)
+		rel = "/" + filepath.ToSlash(rel)
+		if rel == "/." {
+			rel = ""
+		}
+		if info.IsDir() {
+			rel += "/"
+		}
+		out = append(out, rel)
+		return nil
+	})
+	sort.Strings(out)
+	return out
+}
+
+// vfFileContent returns the bytes of a file on disk (reference for Open).
+func vfFileContent(p string) string {
+	b, _ := os.ReadFile(p)
+	return string(b)
+}
 
 func ndLiveGoroutines() int {
 	for k := 0; k < 20; k++ {
